@@ -338,6 +338,8 @@ def check_c(case):
     N = r1.new_version
     later = date + dt.timedelta(days=400) if date.year < 9998 and not (set(parts) & {"YY", "0Y", "GG", "0G"} and date.year >= 2098) else date
     r2 = bv.run(["test", N, pattern] + always_bump_args(ast, later), today=later)
+    if r2.crashed and "max lexical version reached" in (r2.exc or ""):
+        return ok(nt=False, classes=("build-id-at-documented-maximum",))
     if r2.crashed or f"Invalid version '{N}'" in r2.err or "Invalid version string" in r2.err or "Incomplete match" in r2.err:
         return viol("announced-version-not-a-legal-current-version", {"via": "test-chain"},
                     {"first": ["test", case["old"], pattern] + bv.flag_args(flags), "announced": N, "second": r2.summary()}, nt=nt)
